@@ -232,7 +232,7 @@ def main(tier):
         chk.assumptions.append('PARTITION CASES SKIPPED: the library was built without the verif-hook in src/subdivision.cpp')
     else:
         vf.log('[C19] %d partitions (cached + re-indexed) of %d tuples pre-screened by the driver (%.0fs)' % (nrec, len(pres), time.time() - chk.t0))
-        ntv, ncanon, rejected, rt = trace_validate(chk, pcases, pres, work, 6000 if thorough else 520, rnd)
+        ntv, ncanon, rejected, rt = trace_validate(chk, pcases, pres, work, 15000 if thorough else 520, rnd)
         states += rt.distinct; transitions += rt.generated
         vf.log('[C19] %d implementation partitions validated by TLC against Refine!ValidPartition, %d rejected (%.0fs)' % (ntv, rejected, time.time() - chk.t0))
 
@@ -279,9 +279,9 @@ def main(tier):
                 'tangents, each followed by Simplify/SetTolerance(t) for t in {0,1e-13,1e-9,1e-6,0.01,0.2}; the same on the un-refined Boolean '
                 'results; 5 smoothings (SmoothOut x3, CalculateNormals+SmoothByNormals, Smooth(mesh, sharpened edges)) x %d refinements then '
                 'Refine(2). non-trivial = pattern with more than one triangle / refinement that added triangles or a simplification that ran'
-                % ((10, 6, 'all 2^nc', 'a seeded sample of the others (6000 records in all)', 'all %d lattice solids (6 boxes, pairs x Add/Intersect/Subtract)' % nsolids, 6)
+                % ((10, 6, 'all 2^nc', 'a seeded sample of the others (15000 records in all)', 'all %d lattice solids (7 boxes, pairs x Add/Intersect/Subtract)' % nsolids, 6)
                    if thorough else
-                   (8, 4, '4', 'a seeded sample of the others', '%d lattice solids (6 boxes; pairs x Add/Intersect/Subtract: overlap, '
+                   (8, 4, '4', 'a seeded sample of the others', '%d lattice solids (7 boxes; pairs x Add/Intersect/Subtract: overlap, '
                     'containment, face-patch contact, empty intersection)' % nsolids, 4)),
         'samples': [pc[len(pc) // 3]['name'] + ' key ' + str(pc[len(pc) // 3]['key']), pc[-1]['name'] + ' key ' + str(pc[-1]['key']),
                     json.loads(gcases[0])['name'], json.loads(gcases[len(gcases) // 2])['name'], json.loads(gcases[-1])['name']]})
